@@ -22,8 +22,14 @@ import (
 	"unsafe"
 )
 
-// MaxTasks bounds the number of tasks in one execution.
-const MaxTasks = 256
+// MaxTasks bounds the number of tasks in one execution (a runaway, not a verdict: reaching
+// it is a machinery fault). A long sequential run of code that starts a short-lived
+// goroutine per call has thousands of tasks, nearly all of them finished.
+const MaxTasks = 1 << 20
+
+// maxEnabled bounds the number of tasks enabled at one choice point (a ChoicePoint stores
+// the count in a byte).
+const maxEnabled = 255
 
 // Status of a finished execution.
 type Status int
@@ -122,8 +128,10 @@ type ChoicePoint struct {
 
 // Exec is one controlled execution.
 type Exec struct {
-	tasks   [MaxTasks]*Task
+	tasks   []*Task
 	ntasks  int
+	listBuf []*Task
+	kindBuf []OpKind
 	running *Task
 
 	prefix  []uint8
@@ -161,7 +169,7 @@ type Exec struct {
 	// Happens-before hashing for state keys (enabled by Config.HB; not in race builds'
 	// verdict path): th[t] summarises the causal past of task t, oh[addr] that of an object.
 	hb   bool
-	th   [MaxTasks]uint64
+	th   []uint64
 	objs map[unsafe.Pointer]*objHash
 }
 
@@ -314,7 +322,7 @@ func (e *Exec) addPoint(p ChoicePoint) {
 // choose resolves a choice among n alternatives.
 //
 //go:norace
-func (e *Exec) choose(n int, runEn bool, kinds *[MaxTasks]OpKind) (int, bool) {
+func (e *Exec) choose(n int, runEn bool, kinds []OpKind) (int, bool) {
 	idx := e.npoints
 	c := 0
 	if idx < len(e.prefix) {
@@ -346,15 +354,14 @@ func (e *Exec) choose(n int, runEn bool, kinds *[MaxTasks]OpKind) (int, bool) {
 //
 //go:norace
 func (e *Exec) pick(t *Task) (*Task, bool) {
-	var list [MaxTasks]*Task
-	var kinds [MaxTasks]OpKind
 	polls := 0
 retry:
+	list, kinds := e.listBuf[:0], e.kindBuf[:0]
 	n := 0
 	runEn := false
 	if t != nil && !t.done && e.isEnabled(t) {
-		list[0] = t
-		kinds[0] = t.opKind
+		list = append(list, t)
+		kinds = append(kinds, t.opKind)
 		n = 1
 		runEn = true
 	}
@@ -364,10 +371,14 @@ retry:
 			continue
 		}
 		if e.isEnabled(u) {
-			list[n] = u
-			kinds[n] = u.opKind
+			list = append(list, u)
+			kinds = append(kinds, u.opKind)
 			n++
 		}
+	}
+	e.listBuf, e.kindBuf = list, kinds
+	if n > maxEnabled {
+		MachineryFault("%d tasks enabled at one choice point (the explorer handles at most %d)", n, maxEnabled)
 	}
 	if n == 0 && e.advanceClock() {
 		goto retry
@@ -386,7 +397,7 @@ retry:
 	if n == 1 {
 		return list[0], true
 	}
-	c, ok := e.choose(n, runEn, &kinds)
+	c, ok := e.choose(n, runEn, kinds)
 	if !ok {
 		return nil, false
 	}
@@ -617,10 +628,11 @@ func Join() {
 //go:norace
 func (e *Exec) newTask() *Task {
 	if e.ntasks >= MaxTasks {
-		panic("vrt: too many tasks")
+		MachineryFault("more than %d tasks in one execution", MaxTasks)
 	}
 	t := &Task{ID: e.ntasks, wake: make(chan struct{}, 1), exited: make(chan struct{}), opKind: OpStart}
-	e.tasks[e.ntasks] = t
+	e.tasks = append(e.tasks, t)
+	e.th = append(e.th, 0)
 	e.ntasks++
 	return t
 }
